@@ -385,6 +385,18 @@ def gen_healthy_entry(rng, sid, tbl, exclude=()):
 # fault entries (DESIGN.md 2.4)
 # --------------------------------------------------------------------------
 FAULT_KINDS = ("F1", "F2", "F3", "F4", "F5", "F6")
+WRONG_PACKAGE = (
+    ("qartod", "valid_range_test"),
+    ("qartod", "speed_test"),
+    ("qartod", "pressure_increasing_test"),
+    ("axds", "gross_range_test"),
+    ("axds", "spike_test"),
+    ("axds", "flat_line_test"),
+    ("argo", "gross_range_test"),
+    ("argo", "rate_of_change_test"),
+    ("argo", "valid_range_test"),
+    ("axds", "climatology_test"),
+)
 
 
 def gen_fault_entry(rng, kind, sid, tbl, exclude=()):
@@ -397,6 +409,9 @@ def gen_fault_entry(rng, kind, sid, tbl, exclude=()):
     if kind == "F2":
         module = rng.pick(("qartod", "argo", "axds"))
         test = rng.pick(("no_such_test", "gross_range", "spike_test_", "Spike_Test"))
+        if rng.chance(0.5):
+            # a real test asked of the wrong package: the name exists, but not there
+            module, test = rng.pick(WRONG_PACKAGE)
         return {"sid": sid, "module": module, "test": test, "params": {"threshold": 1}, "role": "F2"}
     if kind == "F3":
         opts = [
